@@ -116,16 +116,16 @@ impl<T> RcCell<Shared<T>> {
 
 // ===================================================================== specification vocabulary: one predicate per operation,
 // used both as the postcondition of the real method and as the transition relation of the history lemmas
-pub type Cell<T> = RcCell<Shared<T>>;
+pub type ChanCell<T> = RcCell<Shared<T>>;
 
 /// what `wake()` does to the parked-task record
-pub open spec fn woke<T>(o: Cell<T>, n: Cell<T>) -> bool {
+pub open spec fn woke<T>(o: ChanCell<T>, n: ChanCell<T>) -> bool {
     &&& n.inner.blocked_recv.parked().is_none()
     &&& n.inner.blocked_recv.woken() == (match o.inner.blocked_recv.parked() {
             Some(w) => o.inner.blocked_recv.woken().push(w), None => o.inner.blocked_recv.woken() })
 }
 
-pub open spec fn send_post<T>(o: Cell<T>, n: Cell<T>, item: T, r: Result<(), SendError<T>>) -> bool {
+pub open spec fn send_post<T>(o: ChanCell<T>, n: ChanCell<T>, item: T, r: Result<(), SendError<T>>) -> bool {
     &&& n.strong == o.strong
     // send fails exactly when the receiver has been dropped or the channel closed; then nothing changes and the
     // message is handed back
@@ -134,14 +134,14 @@ pub open spec fn send_post<T>(o: Cell<T>, n: Cell<T>, item: T, r: Result<(), Sen
     &&& (o.inner.has_receiver ==> r is Ok && n.inner.buffer@ == o.inner.buffer@.push(item) && n.inner.has_receiver && woke(o, n))
 }
 
-pub open spec fn close_post<T>(o: Cell<T>, n: Cell<T>) -> bool {
+pub open spec fn close_post<T>(o: ChanCell<T>, n: ChanCell<T>) -> bool {
     &&& n.strong == o.strong
     &&& !n.inner.has_receiver                       // closed for every sender
     &&& n.inner.buffer@ == o.inner.buffer@          // buffered messages can still be drained
     &&& woke(o, n)                                  // a parked receiver is woken
 }
 
-pub open spec fn sender_drop_post<T>(o: Cell<T>, n: Cell<T>) -> bool {
+pub open spec fn sender_drop_post<T>(o: ChanCell<T>, n: ChanCell<T>) -> bool {
     &&& n.strong == o.strong
     &&& n.inner.buffer@ == o.inner.buffer@ && n.inner.has_receiver == o.inner.has_receiver
     // the last sender of an open channel wakes a parked receiver: its stream has ended
@@ -149,11 +149,11 @@ pub open spec fn sender_drop_post<T>(o: Cell<T>, n: Cell<T>) -> bool {
     &&& (!(o.inner.has_receiver && o.strong@ == 2) ==> n.inner.blocked_recv == o.inner.blocked_recv)
 }
 
-pub open spec fn new_handle_post<T>(o: Cell<T>, n: Cell<T>, h: Cell<T>) -> bool {
+pub open spec fn new_handle_post<T>(o: ChanCell<T>, n: ChanCell<T>, h: ChanCell<T>) -> bool {
     n.inner == o.inner && h.inner == o.inner && n.strong@ == o.strong@ + 1 && h.strong@ == o.strong@ + 1
 }
 
-pub open spec fn poll_post<T>(o: Cell<T>, n: Cell<T>, waker: int, r: Poll<Option<T>>) -> bool {
+pub open spec fn poll_post<T>(o: ChanCell<T>, n: ChanCell<T>, waker: int, r: Poll<Option<T>>) -> bool {
     &&& n.strong == o.strong
     &&& n.inner.has_receiver == o.inner.has_receiver
     // a buffered message is delivered, oldest first, exactly once (it leaves the buffer)
@@ -169,7 +169,7 @@ pub open spec fn poll_post<T>(o: Cell<T>, n: Cell<T>, waker: int, r: Poll<Option
                 && n.inner.blocked_recv.woken() == o.inner.blocked_recv.woken())
 }
 
-pub open spec fn receiver_drop_post<T>(o: Cell<T>, n: Cell<T>) -> bool {
+pub open spec fn receiver_drop_post<T>(o: ChanCell<T>, n: ChanCell<T>) -> bool {
     n.strong == o.strong && n.inner.buffer@.len() == 0 && !n.inner.has_receiver
 }
 
@@ -275,14 +275,14 @@ pub struct Hist<T> { pub accepted: Seq<T>, pub delivered: Seq<T> }
 /// invariant while the receiver is alive:
 ///  * FIFO / exactly once: what was delivered followed by what is buffered is exactly what was accepted;
 ///  * a parked receiver means: nothing buffered, channel open, at least one sender alive
-pub open spec fn inv<T>(c: Cell<T>, h: Hist<T>) -> bool {
+pub open spec fn inv<T>(c: ChanCell<T>, h: Hist<T>) -> bool {
     &&& h.delivered + c.inner.buffer@ == h.accepted
     &&& (c.inner.blocked_recv.parked().is_some() ==> c.inner.buffer@.len() == 0 && c.inner.has_receiver && c.strong@ >= 2)
     &&& c.strong@ >= 1
 }
 
 //@lemma lemma_channel_init props=C16
-pub proof fn lemma_channel_init<T>(c: Cell<T>)
+pub proof fn lemma_channel_init<T>(c: ChanCell<T>)
     requires c.inner.buffer@.len() == 0, c.inner.has_receiver, c.inner.blocked_recv.parked().is_none(), c.strong@ == 2,
     ensures inv(c, Hist { accepted: Seq::<T>::empty(), delivered: Seq::<T>::empty() }),
 {
@@ -292,7 +292,7 @@ pub proof fn lemma_channel_init<T>(c: Cell<T>)
 
 //@lemma lemma_send_step props=C16
 /// an accepted message joins the end of the queue; a receiver that had returned Pending is woken by this send
-pub proof fn lemma_send_step<T>(o: Cell<T>, n: Cell<T>, item: T, r: Result<(), SendError<T>>, h: Hist<T>)
+pub proof fn lemma_send_step<T>(o: ChanCell<T>, n: ChanCell<T>, item: T, r: Result<(), SendError<T>>, h: Hist<T>)
     requires inv(o, h), send_post(o, n, item, r),
     ensures
         r is Ok <==> o.inner.has_receiver,
@@ -309,7 +309,7 @@ pub proof fn lemma_send_step<T>(o: Cell<T>, n: Cell<T>, item: T, r: Result<(), S
 //@lemma lemma_poll_step props=C16
 /// messages come out exactly once and in the order they were accepted; the stream ends only when everything accepted
 /// has been delivered and the channel is closed or has no sender; Pending parks the caller's waker
-pub proof fn lemma_poll_step<T>(o: Cell<T>, n: Cell<T>, waker: int, r: Poll<Option<T>>, h: Hist<T>)
+pub proof fn lemma_poll_step<T>(o: ChanCell<T>, n: ChanCell<T>, waker: int, r: Poll<Option<T>>, h: Hist<T>)
     requires inv(o, h), poll_post(o, n, waker, r),
     ensures
         r matches Poll::Ready(Some(v)) ==> h.delivered.len() < h.accepted.len() && v == h.accepted[h.delivered.len() as int]
@@ -333,7 +333,7 @@ pub proof fn lemma_poll_step<T>(o: Cell<T>, n: Cell<T>, waker: int, r: Poll<Opti
 
 //@lemma lemma_close_step props=C16
 /// close wakes a parked receiver, keeps the buffered messages and makes every later send fail
-pub proof fn lemma_close_step<T>(o: Cell<T>, n: Cell<T>, h: Hist<T>)
+pub proof fn lemma_close_step<T>(o: ChanCell<T>, n: ChanCell<T>, h: Hist<T>)
     requires inv(o, h), close_post(o, n),
     ensures inv(n, h), !n.inner.has_receiver,
         o.inner.blocked_recv.parked() matches Some(w) ==> n.inner.blocked_recv.woken() == o.inner.blocked_recv.woken().push(w),
@@ -344,7 +344,7 @@ pub proof fn lemma_close_step<T>(o: Cell<T>, n: Cell<T>, h: Hist<T>)
 //@lemma lemma_sender_drop_step props=C16
 /// dropping a sender (the Drop body, then Rc's own decrement): the drop of the LAST sender of an open channel wakes a
 /// parked receiver; otherwise a parked receiver stays correctly parked
-pub proof fn lemma_sender_drop_step<T>(o: Cell<T>, n: Cell<T>, after: Cell<T>, h: Hist<T>)
+pub proof fn lemma_sender_drop_step<T>(o: ChanCell<T>, n: ChanCell<T>, after: ChanCell<T>, h: Hist<T>)
     requires inv(o, h), o.strong@ >= 2, sender_drop_post(o, n), after.inner == n.inner, after.strong@ == n.strong@ - 1,
     ensures inv(after, h),
         o.strong@ == 2 && o.inner.has_receiver ==> (o.inner.blocked_recv.parked() matches Some(w) ==> after.inner.blocked_recv.woken() == o.inner.blocked_recv.woken().push(w)),
@@ -353,7 +353,7 @@ pub proof fn lemma_sender_drop_step<T>(o: Cell<T>, n: Cell<T>, after: Cell<T>, h
 //@end
 
 //@lemma lemma_new_handle_step props=C16
-pub proof fn lemma_new_handle_step<T>(o: Cell<T>, n: Cell<T>, hd: Cell<T>, h: Hist<T>)
+pub proof fn lemma_new_handle_step<T>(o: ChanCell<T>, n: ChanCell<T>, hd: ChanCell<T>, h: Hist<T>)
     requires inv(o, h), new_handle_post(o, n, hd),
     ensures inv(n, h), inv(hd, h),
 {
